@@ -5,7 +5,7 @@ D=$(mktemp -d /tmp/sfsim-mut-XXXXXX)
 cp -r /repo/. "$D/" 
 case "$P" in
   *.py) (cd "$D" && /venv/bin/python "$P") ;;
-  *) (cd "$D" && (git apply "$P" 2>/dev/null || git apply -3 "$P")) || { echo "patch failed"; rm -rf "$D"; exit 3; } ;;
+  *) (cd "$D" && git update-index -q --refresh; cd "$D" && (git apply "$P" 2>/dev/null || git apply -3 "$P")) || { echo "patch failed"; rm -rf "$D"; exit 3; } ;;
 esac
 (cd "$D" && git diff --stat | tail -1)
 SFSIM_REPO="$D" /verif/check "$ID" "$@" 2>&1 | tail -6
